@@ -404,6 +404,62 @@ var genScenarios = map[string]func(g *Gen) []scriptStep{
 			mixed("ModAck"), mixed("Ack"), pullStep(sS0, 10), pullStep(sS1, 10), pastLeases(sS1), pullStep(sS1, 10),
 		}
 	},
+	// one nack request naming deliveries of two subscriptions with different dead-letter policies:
+	// each delivery follows its OWN subscription's policy and backoff (C01, C04, C06)
+	"nack-cross-subs": func(g *Gen) []scriptStep {
+		return []scriptStep{
+			opStep(&Op{Kind: "CreateTopic", Name: sT0}), opStep(&Op{Kind: "CreateTopic", Name: sT1}),
+			subStep(&SubReq{Name: sS0, Topic: sT0, DL: dl(sT1, 1), Retry: retry(time.Second)}),
+			subStep(&SubReq{Name: sS1, Topic: sT0, Retry: retry(20 * time.Second)}),
+			subStep(&SubReq{Name: sS2, Topic: sT1}),
+			pubStep(sT0, "", "", ""), pullStep(sS0, 10), pullStep(sS1, 10),
+			func(g *Gen, d *Dump, vnow int64) Action {
+				var ids []string
+				for _, x := range d.Dels {
+					if x.Completed == nil && x.Attempts > 0 {
+						ids = append(ids, x.ID.String())
+					}
+				}
+				g.r.Shuffle(len(ids), func(i, j int) { ids[i], ids[j] = ids[j], ids[i] })
+				return Action{Op: &Op{Kind: "StreamAckNack", Nacks: ids}}
+			},
+			pullStep(sS2, 10), pastLeases(sS1), pullStep(sS1, 10), pullStep(sS0, 10),
+		}
+	},
+	// a name used by a second and a third generation: delete, re-create, delete AGAIN while the
+	// first deleted row is still there, re-create (subscription and topic) (C12)
+	"recreated-twice": func(g *Gen) []scriptStep {
+		return []scriptStep{
+			opStep(&Op{Kind: "CreateTopic", Name: sT0}), opStep(&Op{Kind: "CreateTopic", Name: sT1}),
+			subStep(&SubReq{Name: sS0, Topic: sT0}), pubStep(sT0, ""), pullStep(sS0, 10),
+			opStep(&Op{Kind: "DeleteSub", Name: sS0}), subStep(&SubReq{Name: sS0, Topic: sT0}),
+			opStep(&Op{Kind: "DeleteSub", Name: sS0}), subStep(&SubReq{Name: sS0, Topic: sT1, Ordered: true}),
+			opStep(&Op{Kind: "GetSub", Name: sS0}),
+			opStep(&Op{Kind: "DeleteTopic", Name: sT1}), opStep(&Op{Kind: "CreateTopic", Name: sT1}),
+			opStep(&Op{Kind: "DeleteTopic", Name: sT1}), opStep(&Op{Kind: "CreateTopic", Name: sT1}),
+			opStep(&Op{Kind: "DeleteSub", Name: sS0}), subStep(&SubReq{Name: sS0, Topic: sT1}),
+			pubStep(sT1, "", ""), pullStep(sS0, 10), opStep(&Op{Kind: "GetSub", Name: sS0}),
+		}
+	},
+	// a seek on a subscription with an injected delivery delay: messages never delivered keep their
+	// due time (the seek does not touch what is neither acknowledged nor completed) (C13, C14)
+	"seek-delayed": func(g *Gen) []scriptStep {
+		return []scriptStep{
+			opStep(&Op{Kind: "CreateTopic", Name: sT0}),
+			subStep(&SubReq{Name: sS0, Topic: sT0}), subStep(&SubReq{Name: sS1, Topic: sT0}),
+			opStep(&Op{Kind: "SetDelay", Name: sS0, Delay: 40 * time.Second}),
+			pubStep(sT0, "", ""),
+			opStep(&Op{Kind: "CreateSnap", Name: "projects/p/snapshots/n0", Name2: sS0}),
+			pubStep(sT0, ""), advStep(2 * time.Second),
+			func(g *Gen, d *Dump, vnow int64) Action {
+				if g.chance(0.5) {
+					return Action{Op: &Op{Kind: "SeekSnap", Name: sS0, Name2: "projects/p/snapshots/n0"}}
+				}
+				return Action{Op: &Op{Kind: "SeekTime", Name: sS0, Target: vnow - int64(time.Minute)}}
+			},
+			pullStep(sS0, 10), advStep(45 * time.Second), pullStep(sS0, 10),
+		}
+	},
 	"dl-self-loop": func(g *Gen) []scriptStep {
 		return []scriptStep{
 			opStep(&Op{Kind: "CreateTopic", Name: sT0}),
@@ -785,7 +841,7 @@ var genScenarios = map[string]func(g *Gen) []scriptStep{
 	},
 }
 
-var scenarioNames = []string{"ordered-replay", "ordered-prune", "snapshot-sibling-acks", "retry-replaced", "dl-then-prune-messages", "prune-expired-minage", "nack-mixed-attempts", "nack-after-ack-dl", "dl-shared-target", "dl-self-loop", "filter-literals", "ttl-raised", "prune-topics-batch-one", "dl-deleted-topic", "dl-ordered-target", "dl-filtered-target", "snapshot-bystander", "seek-revive-late", "idle-expired-live", "filter-replaced", "ordered-chain", "lease-changes", "ack-mixed-stale"}
+var scenarioNames = []string{"ordered-replay", "ordered-prune", "snapshot-sibling-acks", "retry-replaced", "dl-then-prune-messages", "prune-expired-minage", "nack-mixed-attempts", "nack-after-ack-dl", "dl-shared-target", "dl-self-loop", "filter-literals", "ttl-raised", "prune-topics-batch-one", "dl-deleted-topic", "dl-ordered-target", "dl-filtered-target", "snapshot-bystander", "seek-revive-late", "idle-expired-live", "filter-replaced", "ordered-chain", "lease-changes", "ack-mixed-stale", "nack-cross-subs", "recreated-twice", "seek-delayed"}
 
 // scenariosFor lists the templates a generator profile may start with
 func scenariosFor(profile string) []string {
@@ -793,9 +849,9 @@ func scenariosFor(profile string) []string {
 	case "delivery", "general", "prune":
 		return scenarioNames
 	case "seek":
-		return []string{"seek-revive-late", "ordered-chain", "snapshot-bystander", "ordered-replay", "seek-retention", "snapshot-sibling-acks"}
+		return []string{"seek-revive-late", "ordered-chain", "snapshot-bystander", "ordered-replay", "seek-retention", "snapshot-sibling-acks", "seek-delayed"}
 	case "names":
-		return []string{"idle-expired-live", "topic-recreated"}
+		return []string{"idle-expired-live", "topic-recreated", "recreated-twice"}
 	case "config":
 		return []string{"filter-replaced", "idle-expired-live", "config-reset-each-field", "filter-literals", "ttl-raised", "seek-retention", "retry-replaced"}
 	case "c15":
